@@ -5,6 +5,7 @@
 //! `tla/Replica.tla` (sub-command `hist`: multi-replica delivery histories).
 mod audit;
 mod braid;
+#[cfg_attr(feature = "filestore", allow(dead_code))]
 mod faulty;
 mod hist;
 mod ids;
